@@ -480,7 +480,17 @@ pub fn run_case(master: u64, idx: u64, profile: &str) -> OpsCase {
                 // the same value, a differently filled hash table
                 let twins: Vec<Option<Value>> = srcs
                     .iter()
-                    .map(|i| if r.chance(1, 3) { cambrian::value_util::from_json_value(&pool[*i].to_json(), &spec).ok().filter(|t| *t == pool[*i]) } else { None })
+                    .map(|i| {
+                        if r.chance(1, 3) {
+                            // to_json panics on a non-finite real (reachable here only with mutation scales no run has): no twin then
+                            std::panic::catch_unwind(std::panic::AssertUnwindSafe(|| pool[*i].to_json()))
+                                .ok()
+                                .and_then(|j| cambrian::value_util::from_json_value(&j, &spec).ok())
+                                .filter(|t| *t == pool[*i])
+                        } else {
+                            None
+                        }
+                    })
                     .collect();
                 let parents: Vec<&Value> = srcs.iter().zip(twins.iter()).map(|(i, t)| t.as_ref().unwrap_or(&pool[*i])).collect();
                 let p = CrossoverParams { crossover_prob: prob(&mut r), selection_pressure: prob(&mut r) };
